@@ -1,6 +1,8 @@
 (** Proofs about Model/Dendrogram.v and Model/Cuts.v (property C08). *)
 From SKN Require Import Base.Util Model.Dendrogram Model.Cuts.
-From Coq Require Import Permutation Sorted SetoidList Lia Lqa Psatz.
+From Coq Require Import Permutation Sorted SetoidList Lia Lqa Psatz Qreduction.
+Close Scope Q_scope.
+Open Scope nat_scope.
 
 (** * Lists *)
 Lemma NoDup_snoc {A} (l : list A) x : NoDup l -> ~ In x l -> NoDup (l ++ [x]).
@@ -2551,3 +2553,1194 @@ Proof.
     replace (Nat.ltb n m) with false by (symmetry; apply Nat.ltb_ge; lia). simpl. rewrite Hst.
     unfold get_labels. eexists. eexists. reflexivity.
 Qed.
+
+(** * Hierarchy metrics: Dasgupta's cost and score (get_sampling_distributions over the AggregateGraph) *)
+#[local] Arguments Qred : simpl never.
+#[local] Arguments Qdiv : simpl never.
+#[local] Arguments Qplus : simpl never.
+#[local] Arguments Qmult : simpl never.
+#[local] Arguments adj : simpl never.
+#[local] Arguments total_weight : simpl never.
+
+(** * Rational sums *)
+Lemma qsum_cons a l : qsum (a :: l) = Qred (a + qsum l). Proof. reflexivity. Qed.
+Lemma sumq_cons a l : sumq (a :: l) = (a + sumq l)%Q. Proof. reflexivity. Qed.
+Lemma sumq_nil : sumq [] = 0%Q. Proof. reflexivity. Qed.
+
+Lemma qsum_sumq l : (qsum l == sumq l)%Q.
+Proof. induction l as [|a l IH]; [reflexivity|]. rewrite qsum_cons, sumq_cons, Qred_correct, IH. reflexivity. Qed.
+
+Lemma sumq_app l1 l2 : (sumq (l1 ++ l2) == sumq l1 + sumq l2)%Q.
+Proof.
+  induction l1 as [|a l1 IH]; [rewrite sumq_nil; cbn [app]; ring|].
+  cbn [app]. rewrite !sumq_cons, IH. ring.
+Qed.
+
+Lemma sumq_ext {A} (f g : A -> Q) l : (forall a, In a l -> (f a == g a)%Q) -> (sumq (map f l) == sumq (map g l))%Q.
+Proof.
+  induction l as [|a l IH]; intros H; [reflexivity|]. cbn [map]. rewrite !sumq_cons.
+  rewrite (H a) by now left. rewrite IH by (intros; apply H; now right). reflexivity.
+Qed.
+
+Lemma sumq_scale {A} (f : A -> Q) c l : (sumq (map (fun a => c * f a) l) == c * sumq (map f l))%Q.
+Proof. induction l as [|a l IH]; cbn [map]; [rewrite sumq_nil; ring | rewrite !sumq_cons, IH; ring]. Qed.
+
+Lemma sumq_plus {A} (f g : A -> Q) l : (sumq (map (fun a => f a + g a) l) == sumq (map f l) + sumq (map g l))%Q.
+Proof. induction l as [|a l IH]; cbn [map]; [rewrite sumq_nil; ring | rewrite !sumq_cons, IH; ring]. Qed.
+
+Lemma sumq_zero {A} (f : A -> Q) l : (forall a, In a l -> (f a == 0)%Q) -> (sumq (map f l) == 0)%Q.
+Proof.
+  induction l as [|a l IH]; cbn [map]; intros H; [reflexivity|]. rewrite sumq_cons.
+  rewrite (H a) by now left. rewrite IH by (intros; apply H; now right). ring.
+Qed.
+
+Lemma sumq_perm l l' : Permutation l l' -> (sumq l == sumq l')%Q.
+Proof.
+  induction 1 as [|x l l' P IH|x y l|l l' l'' P1 IH1 P2 IH2]; rewrite ?sumq_cons.
+  - reflexivity.
+  - rewrite IH. reflexivity.
+  - ring.
+  - etransitivity; eassumption.
+Qed.
+
+Lemma sumq_nonneg l : (forall x, In x l -> (0 <= x)%Q) -> (0 <= sumq l)%Q.
+Proof.
+  induction l as [|a l IH]; intros H; [apply Qle_refl|]. rewrite sumq_cons.
+  assert (H1 : (0 <= a)%Q) by (apply H; now left).
+  assert (H2 : (0 <= sumq l)%Q) by (apply IH; intros; apply H; now right). lra.
+Qed.
+
+Lemma sumq_le {A} (f g : A -> Q) l : (forall a, In a l -> (f a <= g a)%Q) -> (sumq (map f l) <= sumq (map g l))%Q.
+Proof.
+  induction l as [|a l IH]; cbn [map]; intros H; [apply Qle_refl|]. rewrite !sumq_cons.
+  assert (H1 := H a (or_introl eq_refl)). assert (H2 : (sumq (map f l) <= sumq (map g l))%Q) by (apply IH; intros; apply H; now right). lra.
+Qed.
+
+(** Exchange of two finite sums. *)
+Lemma sumq_swap {A B} (f : A -> B -> Q) la lb :
+  (sumq (map (fun a => sumq (map (fun b => f a b) lb)) la) == sumq (map (fun b => sumq (map (fun a => f a b) la)) lb))%Q.
+Proof.
+  induction la as [|a la IH]; cbn [map].
+  - rewrite sumq_nil. symmetry. apply sumq_zero. intros. reflexivity.
+  - rewrite sumq_cons, IH. rewrite <- sumq_plus. apply sumq_ext. intros b _. rewrite sumq_cons. reflexivity.
+Qed.
+
+(** * Liveness of the ids in a dict replayed along the merges (any value type) *)
+Definition linvp {A} (k : nat) (done : dendrogram) (live : list (nat * A)) : Prop :=
+  NoDup (akeys live) /\
+  (forall x, In x (akeys live) <-> x < k + length done /\ ~ In x (flat_map children done)) /\
+  (forall c, In c (flat_map children done) -> c < k + length done).
+
+Lemma linvp_step {A} k done (live : list (nat * A)) r :
+  linvp k done live -> In (r_left r) (akeys live) -> In (r_right r) (akeys live) -> r_left r <> r_right r ->
+  forall s, linvp k (done ++ [r]) (aremove (r_right r) (aremove (r_left r) live) ++ [(k + length done, s)]).
+Proof.
+  intros (Hnd & Hkeys & Hch) Hik Hjk Hne s.
+  apply Hkeys in Hik. apply Hkeys in Hjk.
+  assert (Hnd1 : NoDup (akeys (aremove (r_left r) live))) by now apply NoDup_aremove.
+  assert (Hkeys2 : forall x, In x (akeys (aremove (r_right r) (aremove (r_left r) live))) <->
+                             In x (akeys live) /\ x <> r_left r /\ x <> r_right r).
+  { intros x. rewrite akeys_aremove_iff by assumption. rewrite akeys_aremove_iff by assumption. tauto. }
+  split; [|split].
+  - apply NoDup_akeys_app_fresh; [now apply NoDup_aremove|]. rewrite Hkeys2, Hkeys. lia.
+  - intros x. rewrite akeys_app, in_app_iff, Hkeys2, Hkeys, flat_map_app, in_app_iff, app_length. simpl.
+    split.
+    + intros [[[H1 H2] [H3 H4]]|[H|[]]].
+      * split; [lia|]. intros [Hc|[Hc|[Hc|[]]]]; [tauto|congruence|congruence].
+      * subst x. split; [lia|]. intros [Hc|[Hc|[Hc|[]]]]; [apply Hch in Hc; lia | lia | lia].
+    + intros [Hlt Hnot].
+      destruct (Nat.eq_dec x (k + length done)) as [->|Hx]; [right; now left|].
+      left. repeat split; try lia; try tauto; intros ->; apply Hnot; right; simpl; tauto.
+  - intros c. rewrite flat_map_app, in_app_iff, app_length. simpl.
+    intros [H|[H|[H|[]]]]; [apply Hch in H; lia | subst c; lia | subst c; lia].
+Qed.
+
+Lemma linvp_init {A} n (vals : list A) : length vals = n -> linvp n [] (combine (seq 0 n) vals).
+Proof.
+  intros Hl. unfold linvp, akeys. rewrite map_fst_combine by (now rewrite seq_length). simpl.
+  split; [apply seq_NoDup|]. split; [|tauto]. intros x. rewrite in_seq. lia.
+Qed.
+
+(** * Reading weights in a dict with default 0 *)
+Lemma getw_notin r y : ~ In y (akeys r) -> getw r y = 0%Q.
+Proof. intros H. unfold getw. apply alookup_None in H. now rewrite H. Qed.
+
+Lemma getw_aremove r a y : NoDup (akeys r) -> getw (aremove a r) y = if Nat.eqb y a then 0%Q else getw r y.
+Proof.
+  intros Hnd. unfold getw. destruct (Nat.eqb y a) eqn:E.
+  - apply Nat.eqb_eq in E. subst. now rewrite alookup_aremove_eq.
+  - apply Nat.eqb_neq in E. now rewrite alookup_aremove_neq.
+Qed.
+
+Lemma getw_snoc r c q y : ~ In c (akeys r) -> getw (r ++ [(c, q)]) y = if Nat.eqb y c then q else getw r y.
+Proof.
+  intros Hc. unfold getw. rewrite alookup_app. destruct (Nat.eqb y c) eqn:E.
+  - apply Nat.eqb_eq in E. subst. apply alookup_None in Hc. rewrite Hc. simpl. now rewrite Nat.eqb_refl.
+  - destruct (alookup y r); [reflexivity|]. simpl. now rewrite E.
+Qed.
+
+Lemma amem_false_notin {A} (r : list (nat * A)) y : amem y r = false -> ~ In y (akeys r).
+Proof. unfold amem. destruct (alookup y r) eqn:E; [discriminate|]. intros _. now apply alookup_None. Qed.
+
+Lemma amem_true_in {A} (r : list (nat * A)) y : amem y r = true -> In y (akeys r).
+Proof. unfold amem. destruct (alookup y r) eqn:E; [|discriminate]. intros _. eapply alookup_key; eassumption. Qed.
+
+Lemma alookup_map_vals {A B} (f : nat -> A -> B) (l : list (nat * A)) x :
+  alookup x (map (fun xr : nat * A => let (k, v) := xr in (k, f k v)) l) =
+  match alookup x l with Some v => Some (f x v) | None => None end.
+Proof.
+  induction l as [|[k v] l IH]; simpl; [reflexivity|]. destruct (Nat.eqb x k) eqn:E; [|exact IH].
+  apply Nat.eqb_eq in E. now subst.
+Qed.
+
+Lemma akeys_map_vals {A B} (f : nat -> A -> B) (l : list (nat * A)) :
+  akeys (map (fun xr : nat * A => let (k, v) := xr in (k, f k v)) l) = akeys l.
+Proof. unfold akeys. rewrite map_map. apply map_ext. now intros [k v]. Qed.
+
+Lemma linvp_of_keys_gen {A} n (live : list (nat * A)) : akeys live = seq 0 n -> linvp n [] live.
+Proof.
+  intros E. unfold linvp. rewrite E. simpl. split; [apply seq_NoDup|]. split; [|tauto].
+  intros x. rewrite in_seq. lia.
+Qed.
+
+Lemma alookup_map_seq {A} (f : nat -> A) n x : x < n -> alookup x (map (fun u => (u, f u)) (seq 0 n)) = Some (f x).
+Proof.
+  intros H. apply In_alookup.
+  - unfold akeys. rewrite map_map. simpl. rewrite map_id. apply seq_NoDup.
+  - apply in_map_iff. exists x. split; [reflexivity | apply in_seq; lia].
+Qed.
+
+Lemma getw_combine_seq (vals : list Q) n x : length vals = n -> x < n -> getw (combine (seq 0 n) vals) x = nthq vals x.
+Proof.
+  intros Hl Hx. unfold getw. rewrite (In_alookup x (nthq vals x)); [reflexivity| |].
+  - unfold akeys. rewrite map_fst_combine by now rewrite seq_length. apply seq_NoDup.
+  - subst n. assert (H : forall (w : list Q) s i, i < length w -> In (s + i, nth i w 0%Q) (combine (seq s (length w)) w)).
+    { induction w as [|a w IH]; intros s i Hi; simpl in *; [lia|]. destruct i as [|i].
+      - left. now rewrite Nat.add_0_r.
+      - right. replace (s + S i) with (S s + i) by lia. apply IH. lia. }
+    exact (H vals 0 x Hx).
+Qed.
+
+Lemma stored_false_adj G u v : stored G u v = false -> adj G u v = 0%Q.
+Proof.
+  unfold stored, adj. intros H.
+  assert (E : filter (fun e => Nat.eqb (e_src e) u && Nat.eqb (e_dst e) v) G = []).
+  { induction G as [|e G' IH]; [reflexivity|]. simpl in *. apply orb_false_iff in H. destruct H as [H1 H2].
+    rewrite H1. now apply IH. }
+  now rewrite E.
+Qed.
+
+Section AGraph.
+Context (degree : bool) (n : nat) (G : wgraph) (D : dendrogram) (Hv : valid n D = true).
+
+Let tw := (2 * total_weight G)%Q.
+Definition sw (u v : nat) : Q := Qred ((adj G u v + adj G v u) / tw).
+Definition cross (x y : nat) : Q :=
+  sumq (map (fun u => sumq (map (fun v => sw u v) (leaves n D y))) (leaves n D x)).
+Definition PR (L : list nat) : Q := sumq (map (nthq (probs_row degree n G)) L).
+Definition PC (L : list nat) : Q := sumq (map (nthq (probs_col degree n G)) L).
+Definition Wd (g : agraph) (x y : nat) : Q := getw (getrow (ag_nb g) x) y.
+
+Definition ainv (t : nat) (g : agraph) : Prop :=
+  ag_next g = n + t /\
+  linvp n (firstn t D) (ag_nb g) /\ linvp n (firstn t D) (ag_out g) /\ linvp n (firstn t D) (ag_in g) /\
+  (forall x rx, In (x, rx) (ag_nb g) -> NoDup (akeys rx) /\ forall y, In y (akeys rx) -> y < n + t) /\
+  (forall x y, In x (akeys (ag_nb g)) -> In y (akeys (ag_nb g)) -> x <> y -> (Wd g x y == cross x y)%Q) /\
+  (forall x, In x (akeys (ag_nb g)) -> x < n -> (Wd g x x == sw x x)%Q) /\
+  (forall x, In x (akeys (ag_out g)) -> (getw (ag_out g) x == PR (leaves n D x))%Q) /\
+  (forall x, In x (akeys (ag_in g)) -> (getw (ag_in g) x == PC (leaves n D x))%Q).
+
+Lemma linvp_of_keys {A} (live : list (nat * A)) : akeys live = seq 0 n -> linvp n [] live.
+Proof.
+  intros E. unfold linvp. rewrite E. simpl. split; [apply seq_NoDup|]. split; [|tauto].
+  intros x. rewrite in_seq. lia.
+Qed.
+
+Definition init_row (u : nat) : list (nat * Q) :=
+  map (fun v => (v, Qred ((adj G u v + adj G v u) / (2 * total_weight G))%Q))
+      (filter (fun v => stored G u v || stored G v u) (seq 0 n)).
+
+Lemma ainv_init : ainv 0 (ag_init degree n G).
+Proof.
+  unfold ainv, ag_init. cbn [ag_next ag_nb ag_out ag_in firstn].
+  change (map (fun u : nat => (u, map (fun v : nat => (v, Qred ((adj G u v + adj G v u) / (2 * total_weight G))%Q))
+                                     (filter (fun v : nat => stored G u v || stored G v u) (seq 0 n)))) (seq 0 n))
+    with (map (fun u => (u, init_row u)) (seq 0 n)).
+  assert (Hlr : length (probs_row degree n G) = n) by (unfold probs_row; now rewrite map_length, seq_length).
+  assert (Hlc : length (probs_col degree n G) = n) by (unfold probs_col; now rewrite map_length, seq_length).
+  assert (Hkeys : akeys (map (fun u => (u, init_row u)) (seq 0 n)) = seq 0 n).
+  { unfold akeys. rewrite map_map. simpl. apply map_id. }
+  assert (Hrowkeys : forall u, akeys (init_row u) = filter (fun v => stored G u v || stored G v u) (seq 0 n)).
+  { intros u. unfold akeys, init_row. rewrite map_map. simpl. apply map_id. }
+  assert (Hget : forall x y, x < n -> y < n -> (getw (init_row x) y == sw x y)%Q).
+  { intros x y Hx Hy. destruct (stored G x y || stored G y x) eqn:Es.
+    - unfold getw. rewrite (In_alookup y (sw x y)); [reflexivity| |].
+      + rewrite Hrowkeys. apply NoDup_filter, seq_NoDup.
+      + unfold init_row. apply in_map_iff. exists y. split; [reflexivity|]. apply filter_In. split; [apply in_seq; lia | exact Es].
+    - rewrite getw_notin.
+      + apply orb_false_iff in Es. destruct Es as [E1 E2]. unfold sw.
+        rewrite (stored_false_adj _ _ _ E1), (stored_false_adj _ _ _ E2), Qred_correct. unfold Qdiv. ring.
+      + rewrite Hrowkeys, filter_In. intros [_ H]. congruence. }
+  split; [lia|]. split; [now apply linvp_of_keys|].
+  split; [apply linvp_init; exact Hlr|]. split; [apply linvp_init; exact Hlc|].
+  split; [|split; [|split; [|split]]].
+  - intros x rx Hin. apply in_map_iff in Hin. destruct Hin as [u [E Hu]]. injection E as E1 E2. subst x rx.
+    rewrite Hrowkeys. split; [apply NoDup_filter, seq_NoDup|]. intros y Hy. apply filter_In in Hy. destruct Hy as [Hy _].
+    apply in_seq in Hy. lia.
+  - intros x y Hx Hy Hne. rewrite Hkeys in Hx, Hy. apply in_seq in Hx, Hy.
+    unfold Wd, getrow. simpl. rewrite alookup_map_seq by lia. rewrite Hget by lia.
+    unfold cross. rewrite !leaves_leaf by lia. simpl. ring.
+  - intros x Hx Hxn. unfold Wd, getrow. simpl. rewrite alookup_map_seq by lia. apply Hget; lia.
+  - intros x Hx. unfold akeys in Hx. rewrite map_fst_combine in Hx by now rewrite seq_length. apply in_seq in Hx.
+    rewrite getw_combine_seq by (assumption || lia). unfold PR. rewrite leaves_leaf by lia. simpl. ring.
+  - intros x Hx. unfold akeys in Hx. rewrite map_fst_combine in Hx by now rewrite seq_length. apply in_seq in Hx.
+    rewrite getw_combine_seq by (assumption || lia). unfold PC. rewrite leaves_leaf by lia. simpl. ring.
+Qed.
+
+Lemma linvp_keys_eq {A B} k done (l1 : list (nat * A)) (l2 : list (nat * B)) :
+  akeys l1 = akeys l2 -> linvp k done l1 -> linvp k done l2.
+Proof. unfold linvp. intros E. now rewrite E. Qed.
+
+Lemma alookup_map_key {B} (h : nat -> B) l y :
+  alookup y (map (fun x => (x, h x)) l) = if memn y l then Some (h y) else None.
+Proof.
+  induction l as [|x l IH]; simpl; [reflexivity|]. unfold memn in *. simpl.
+  destruct (Nat.eqb y x) eqn:E; [apply Nat.eqb_eq in E; now subst | exact IH].
+Qed.
+
+(** The rewritten row of a neighbour x in AggregateGraph.merge. *)
+Definition mrow (a b c : nat) (rx : list (nat * Q)) : list (nat * Q) :=
+  if amem a rx || amem b rx
+  then aremove b (aremove a rx) ++ [(c, Qred (getw rx a + getw rx b)%Q)]
+  else rx.
+
+Lemma mrow_get a b c rx y : NoDup (akeys rx) -> ~ In c (akeys rx) -> y <> a -> y <> b ->
+  (getw (mrow a b c rx) y == if Nat.eqb y c then getw rx a + getw rx b else getw rx y)%Q.
+Proof.
+  intros Hnd Hc Ha Hb. unfold mrow. destruct (amem a rx || amem b rx) eqn:Em.
+  - rewrite getw_snoc by (intros H; apply akeys_aremove_In, akeys_aremove_In in H; tauto).
+    destruct (Nat.eqb y c) eqn:E; [apply Qred_correct|].
+    rewrite getw_aremove by now apply NoDup_aremove. rewrite getw_aremove by assumption.
+    replace (Nat.eqb y b) with false by (symmetry; now apply Nat.eqb_neq).
+    replace (Nat.eqb y a) with false by (symmetry; now apply Nat.eqb_neq). reflexivity.
+  - apply orb_false_iff in Em. destruct Em as [E1 E2].
+    destruct (Nat.eqb y c) eqn:E; [|reflexivity]. apply Nat.eqb_eq in E. subst y.
+    rewrite (getw_notin rx c Hc), (getw_notin rx a (amem_false_notin _ _ E1)), (getw_notin rx b (amem_false_notin _ _ E2)). ring.
+Qed.
+
+Lemma mrow_keys a b c rx t : NoDup (akeys rx) -> (forall y, In y (akeys rx) -> y < c) -> c < t ->
+  NoDup (akeys (mrow a b c rx)) /\ forall y, In y (akeys (mrow a b c rx)) -> y < t.
+Proof.
+  intros Hnd Hb Hc. unfold mrow. destruct (amem a rx || amem b rx).
+  - split.
+    + apply NoDup_akeys_app_fresh; [now apply NoDup_aremove, NoDup_aremove|].
+      intros H. apply akeys_aremove_In, akeys_aremove_In, Hb in H. lia.
+    + intros y Hy. rewrite akeys_app, in_app_iff in Hy. destruct Hy as [Hy|[<-|[]]]; [|exact Hc].
+      apply akeys_aremove_In, akeys_aremove_In, Hb in Hy. lia.
+  - split; [exact Hnd|]. intros y Hy. apply Hb in Hy. lia.
+Qed.
+
+Lemma cross_app_l x a b y : leaves n D x = leaves n D a ++ leaves n D b -> (cross x y == cross a y + cross b y)%Q.
+Proof. intros E. unfold cross. rewrite E, map_app, sumq_app. reflexivity. Qed.
+
+Lemma cross_app_r x a b y : leaves n D y = leaves n D a ++ leaves n D b -> (cross x y == cross x a + cross x b)%Q.
+Proof.
+  intros E. unfold cross. rewrite E. rewrite <- sumq_plus. apply sumq_ext. intros u _.
+  rewrite map_app, sumq_app. reflexivity.
+Qed.
+
+Lemma ainv_step t r g : nth_error D t = Some r -> ainv t g ->
+  exists g', ag_merge g (r_left r) (r_right r) = Ok g' /\ ainv (S t) g'.
+Proof.
+  intros Hr (Hnext & Lnb & Lout & Lin & Hrowsinv & HW & HWs & Hout & Hinw).
+  assert (Hids := valid_ids_lt n D Hv). destruct (valid_rows n D Hv) as [Hlen Hrows].
+  destruct (Hrows t r Hr) as (Hne & Hil & Hjl & Hiu & Hju).
+  assert (Ht : t < length D) by (apply nth_error_Some; congruence).
+  assert (Hft : length (firstn t D) = t) by (rewrite firstn_length; lia).
+  set (a := r_left r) in *. set (b := r_right r) in *. set (c := n + t).
+  assert (Hlive : forall {A} (l : list (nat * A)), linvp n (firstn t D) l -> In a (akeys l) /\ In b (akeys l)).
+  { intros A l (_ & Hk & _). split; apply Hk; rewrite Hft; tauto. }
+  destruct (Hlive _ _ Lnb) as [Hanb Hbnb]. destruct (Hlive _ _ Lout) as [Hao Hbo]. destruct (Hlive _ _ Lin) as [Hai Hbi].
+  destruct (In_key_alookup _ _ Hanb) as [ra Era]. destruct (In_key_alookup _ _ Hbnb) as [rb Erb].
+  destruct (In_key_alookup _ _ Hao) as [oa Eoa]. destruct (In_key_alookup _ _ Hbo) as [ob Eob].
+  destruct (In_key_alookup _ _ Hai) as [ia Eia]. destruct (In_key_alookup _ _ Hbi) as [ib Eib].
+  unfold ag_merge. rewrite Era, Erb, Eoa, Eob, Eia, Eib.
+  replace (Nat.eqb a b) with false by (symmetry; now apply Nat.eqb_neq). rewrite Hnext. fold c.
+  eexists. split; [reflexivity|].
+  set (others := filter (fun x => negb (Nat.eqb x a) && negb (Nat.eqb x b)) (nodup Nat.eq_dec (akeys ra ++ akeys rb))).
+  set (newrow := (c, Qred (getw ra a + getw ra b + getw rb a + getw rb b)%Q) ::
+                 map (fun x => (x, Qred (getw ra x + getw rb x)%Q)) others).
+  assert (Hfs : firstn (S t) D = firstn t D ++ [r]) by now apply firstn_S_nth.
+  destruct Lnb as (Hndnb & Hknb & Hchnb).
+  assert (Hra := Hrowsinv a ra (alookup_In _ _ _ Era)). assert (Hrb := Hrowsinv b rb (alookup_In _ _ _ Erb)).
+  destruct Hra as [Hndra Hbra]. destruct Hrb as [Hndrb Hbrb].
+  (* the rewritten rows *)
+  set (nb1 := aremove b (aremove a (ag_nb g))).
+  assert (Enb2 : map (fun xr : nat * list (nat * Q) => let (x, rx) := xr in
+                        if amem a rx || amem b rx
+                        then (x, aremove b (aremove a rx) ++ [(c, Qred (getw rx a + getw rx b)%Q)])
+                        else (x, rx)) nb1 =
+                 map (fun xr : nat * list (nat * Q) => let (x, rx) := xr in (x, (fun _ => mrow a b c) x rx)) nb1).
+  { apply map_ext. intros [x rx]. unfold mrow. destruct (amem a rx || amem b rx); reflexivity. }
+  rewrite Enb2. set (nb2 := map (fun xr : nat * list (nat * Q) => let (x, rx) := xr in (x, (fun _ => mrow a b c) x rx)) nb1).
+  assert (Hk2 : akeys nb2 = akeys nb1) by apply akeys_map_vals.
+  assert (Hknb1 : forall x, In x (akeys nb1) <-> In x (akeys (ag_nb g)) /\ x <> a /\ x <> b).
+  { intros x. unfold nb1. rewrite akeys_aremove_iff by now apply NoDup_aremove. rewrite akeys_aremove_iff by assumption. tauto. }
+  assert (Hcfresh : ~ In c (akeys (ag_nb g))) by (intros H; apply Hknb in H; rewrite Hft in H; unfold c in H; lia).
+  assert (Hrow_c : getrow (nb2 ++ [(c, newrow)]) c = newrow).
+  { unfold getrow. rewrite alookup_app.
+    assert (E : alookup c nb2 = None) by (apply alookup_None; rewrite Hk2, Hknb1; tauto).
+    rewrite E. simpl. now rewrite Nat.eqb_refl. }
+  assert (Hrow_x : forall x, In x (akeys (ag_nb g)) -> x <> a -> x <> b ->
+             exists rx, alookup x (ag_nb g) = Some rx /\ getrow (nb2 ++ [(c, newrow)]) x = mrow a b c rx).
+  { intros x Hx Hxa Hxb. destruct (In_key_alookup _ _ Hx) as [rx Erx]. exists rx. split; [exact Erx|].
+    unfold getrow. rewrite alookup_app. unfold nb2. rewrite alookup_map_vals. unfold nb1.
+    rewrite !alookup_aremove_neq by auto. now rewrite Erx. }
+  assert (Hnew_get : forall y, y <> a -> y <> b -> y <> c -> (getw newrow y == getw ra y + getw rb y)%Q).
+  { intros y Hya Hyb Hyc. unfold newrow, getw at 1. simpl.
+    replace (Nat.eqb y c) with false by (symmetry; now apply Nat.eqb_neq).
+    rewrite alookup_map_key. destruct (memn y others) eqn:Em; [apply Qred_correct|].
+    assert (Hnot : ~ In y (akeys ra ++ akeys rb)).
+    { intros Hin. assert (In y others); [|apply memn_In in H; congruence].
+      unfold others. apply filter_In. split; [now apply nodup_In|].
+      apply andb_true_iff. split; apply negb_true_iff, Nat.eqb_neq; assumption. }
+    rewrite in_app_iff in Hnot. rewrite (getw_notin ra y), (getw_notin rb y) by tauto. ring. }
+  assert (Hleaves_c : leaves n D c = leaves n D a ++ leaves n D b) by (apply (leaves_node n D t r Hids Hr)).
+  (* now the nine parts of the invariant *)
+  unfold ainv. cbn [ag_next ag_nb ag_out ag_in]. rewrite Hfs.
+  assert (Hc_eq : c = n + length (firstn t D)) by (rewrite Hft; reflexivity).
+  split; [unfold c; lia|]. split; [|split; [|split]].
+  - apply (linvp_keys_eq n _ (aremove b (aremove a (ag_nb g)) ++ [(c, newrow)])).
+    + rewrite !akeys_app. f_equal. symmetry. exact Hk2.
+    + rewrite Hc_eq. apply linvp_step; [split; [exact Hndnb|split; [exact Hknb|exact Hchnb]] | assumption | assumption | assumption].
+  - rewrite Hc_eq. apply linvp_step; assumption.
+  - rewrite Hc_eq. apply linvp_step; assumption.
+  - split; [|split; [|split; [|split]]].
+    + intros x rx' Hin. apply in_app_iff in Hin. destruct Hin as [Hin|[Hin|[]]].
+      * unfold nb2 in Hin. apply in_map_iff in Hin. destruct Hin as [[x0 rx] [E Hin]]. injection E as E1 E2. subst x0 rx'.
+        unfold nb1 in Hin. apply aremove_In, aremove_In in Hin. destruct (Hrowsinv x rx Hin) as [Hnd Hb].
+        apply mrow_keys; [exact Hnd | intros y Hy; apply Hb in Hy; unfold c; lia | unfold c; lia].
+      * injection Hin as E1 E2. subst x rx'. unfold newrow, akeys. simpl. rewrite map_map. simpl. rewrite map_id.
+        assert (Hob : forall y, In y others -> y < c).
+        { intros y Hy. unfold others in Hy. apply filter_In in Hy. destruct Hy as [Hy _]. apply nodup_In, in_app_iff in Hy.
+          destruct Hy as [Hy|Hy]; [apply Hbra in Hy | apply Hbrb in Hy]; unfold c; lia. }
+        split.
+        -- constructor; [intros H; apply Hob in H; lia | apply NoDup_filter, NoDup_nodup].
+        -- intros y [<-|Hy]; [unfold c; lia | apply Hob in Hy; lia].
+    + intros x y Hx Hy Hxy. rewrite akeys_app, in_app_iff, Hk2, Hknb1 in Hx, Hy. cbn [akeys map fst] in Hx, Hy.
+      unfold Wd. cbn [ag_nb].
+      destruct Hx as [(Hx & Hxa & Hxb)|[<-|[]]]; destruct Hy as [(Hy & Hya & Hyb)|[<-|[]]].
+      * destruct (Hrow_x x Hx Hxa Hxb) as (rx & Erx & ->). destruct (Hrowsinv x rx (alookup_In _ _ _ Erx)) as [Hnd Hb].
+        assert (Hyc : y <> c) by (intros ->; tauto).
+        rewrite mrow_get; [|assumption|intros H; apply Hb in H; unfold c in H; lia|assumption|assumption].
+        replace (Nat.eqb y c) with false by (symmetry; now apply Nat.eqb_neq).
+        assert (E := HW x y Hx Hy Hxy). unfold Wd, getrow in E. now rewrite Erx in E.
+      * destruct (Hrow_x x Hx Hxa Hxb) as (rx & Erx & ->). destruct (Hrowsinv x rx (alookup_In _ _ _ Erx)) as [Hnd Hb].
+        assert (Hxc : x <> c) by (intros ->; tauto).
+        rewrite mrow_get; [|assumption|intros H; apply Hb in H; unfold c in H; lia|intros E; apply Hcfresh; fold c; rewrite E; exact Hanb|intros E; apply Hcfresh; fold c; rewrite E; exact Hbnb].
+        rewrite Nat.eqb_refl. rewrite (cross_app_r x a b c Hleaves_c).
+        assert (E1 := HW x a Hx Hanb Hxa). assert (E2 := HW x b Hx Hbnb Hxb). unfold Wd, getrow in E1, E2.
+        rewrite Erx in E1, E2. now rewrite E1, E2.
+      * rewrite Hrow_c. assert (Hyc : y <> c) by (intros ->; tauto). rewrite Hnew_get by assumption.
+        rewrite (cross_app_l c a b y Hleaves_c).
+        assert (E1 := HW a y Hanb Hy (not_eq_sym Hya)). assert (E2 := HW b y Hbnb Hy (not_eq_sym Hyb)).
+        unfold Wd, getrow in E1, E2. rewrite Era in E1. rewrite Erb in E2. now rewrite E1, E2.
+      * congruence.
+    + intros x Hx Hxn. rewrite akeys_app, in_app_iff, Hk2, Hknb1 in Hx. cbn [akeys map fst] in Hx.
+      destruct Hx as [(Hx & Hxa & Hxb)|[<-|[]]]; [|unfold c in Hxn; lia].
+      unfold Wd. cbn [ag_nb]. destruct (Hrow_x x Hx Hxa Hxb) as (rx & Erx & ->).
+      destruct (Hrowsinv x rx (alookup_In _ _ _ Erx)) as [Hnd Hb].
+      rewrite mrow_get; [|assumption|intros H; apply Hb in H; unfold c in H; lia|assumption|assumption].
+      replace (Nat.eqb x c) with false by (symmetry; apply Nat.eqb_neq; unfold c; lia).
+      assert (E := HWs x Hx Hxn). unfold Wd, getrow in E. now rewrite Erx in E.
+    + intros x Hx. destruct Lout as (Hndo & Hko & _).
+      assert (Hcf : ~ In c (akeys (aremove b (aremove a (ag_out g))))).
+      { intros H. apply akeys_aremove_In, akeys_aremove_In, Hko in H. rewrite Hft in H. unfold c in H. lia. }
+      rewrite getw_snoc by assumption. rewrite akeys_app, in_app_iff in Hx. cbn [akeys map fst] in Hx.
+      destruct (Nat.eqb x c) eqn:E.
+      * apply Nat.eqb_eq in E. subst x. rewrite Qred_correct, Hleaves_c. unfold PR. rewrite map_app, sumq_app.
+        assert (E1 := Hout a Hao). assert (E2 := Hout b Hbo). unfold getw in E1, E2. rewrite Eoa in E1. rewrite Eob in E2.
+        unfold PR in E1, E2. now rewrite E1, E2.
+      * apply Nat.eqb_neq in E. destruct Hx as [Hx|[Hx|[]]]; [|congruence].
+        rewrite akeys_aremove_iff in Hx by now apply NoDup_aremove. rewrite akeys_aremove_iff in Hx by assumption.
+        destruct Hx as ((Hx & Hxa) & Hxb).
+        rewrite getw_aremove by now apply NoDup_aremove. rewrite getw_aremove by assumption.
+        replace (Nat.eqb x b) with false by (symmetry; now apply Nat.eqb_neq).
+        replace (Nat.eqb x a) with false by (symmetry; now apply Nat.eqb_neq). now apply Hout.
+    + intros x Hx. destruct Lin as (Hndo & Hko & _).
+      assert (Hcf : ~ In c (akeys (aremove b (aremove a (ag_in g))))).
+      { intros H. apply akeys_aremove_In, akeys_aremove_In, Hko in H. rewrite Hft in H. unfold c in H. lia. }
+      rewrite getw_snoc by assumption. rewrite akeys_app, in_app_iff in Hx. cbn [akeys map fst] in Hx.
+      destruct (Nat.eqb x c) eqn:E.
+      * apply Nat.eqb_eq in E. subst x. rewrite Qred_correct, Hleaves_c. unfold PC. rewrite map_app, sumq_app.
+        assert (E1 := Hinw a Hai). assert (E2 := Hinw b Hbi). unfold getw in E1, E2. rewrite Eia in E1. rewrite Eib in E2.
+        unfold PC in E1, E2. now rewrite E1, E2.
+      * apply Nat.eqb_neq in E. destruct Hx as [Hx|[Hx|[]]]; [|congruence].
+        rewrite akeys_aremove_iff in Hx by now apply NoDup_aremove. rewrite akeys_aremove_iff in Hx by assumption.
+        destruct Hx as ((Hx & Hxa) & Hxb).
+        rewrite getw_aremove by now apply NoDup_aremove. rewrite getw_aremove by assumption.
+        replace (Nat.eqb x b) with false by (symmetry; now apply Nat.eqb_neq).
+        replace (Nat.eqb x a) with false by (symmetry; now apply Nat.eqb_neq). now apply Hinw.
+Qed.
+End AGraph.
+
+Section Sampling.
+Context (degree : bool) (n : nat) (G : wgraph) (D : dendrogram) (Hv : valid n D = true).
+
+Notation cross := (cross n G D).
+Notation sw := (sw G).
+Notation PR := (PR degree n G).
+Notation PC := (PC degree n G).
+Notation ainv := (ainv degree n G D).
+
+Definition ES (r : drow) : Q :=
+  (2 * cross (r_left r) (r_right r) +
+   sumq (map (fun x => sw x x) (filter (fun x => Nat.ltb x n) [r_left r; r_right r])))%Q.
+Definition CW (r : drow) : Q :=
+  ((PR (leaves n D (r_left r)) + PR (leaves n D (r_right r)) +
+    PC (leaves n D (r_left r)) + PC (leaves n D (r_right r))) / 2)%Q.
+
+Lemma sampling_step_spec t r g : nth_error D t = Some r -> ainv t g ->
+  exists es ns cw, sampling_step n g (r_left r) (r_right r) = Ok (es, ns, cw) /\
+                   (es == ES r)%Q /\ (cw == CW r)%Q.
+Proof.
+  intros Hr (Hnext & Lnb & Lout & Lin & Hrowsinv & HW & HWs & Hout & Hinw).
+  destruct (valid_rows n D Hv) as [Hlen Hrows].
+  destruct (Hrows t r Hr) as (Hne & Hil & Hjl & Hiu & Hju).
+  assert (Ht : t < length D) by (apply nth_error_Some; congruence).
+  assert (Hft : length (firstn t D) = t) by (rewrite firstn_length; lia).
+  set (a := r_left r) in *. set (b := r_right r) in *.
+  assert (Hlive : forall {A} (l : list (nat * A)), linvp n (firstn t D) l -> In a (akeys l) /\ In b (akeys l)).
+  { intros A l (_ & Hk & _). split; apply Hk; rewrite Hft; tauto. }
+  destruct (Hlive _ _ Lnb) as [Hanb Hbnb]. destruct (Hlive _ _ Lout) as [Hao Hbo]. destruct (Hlive _ _ Lin) as [Hai Hbi].
+  destruct (In_key_alookup _ _ Hanb) as [ra Era].
+  destruct (In_key_alookup _ _ Hao) as [oa Eoa]. destruct (In_key_alookup _ _ Hbo) as [ob Eob].
+  destruct (In_key_alookup _ _ Hai) as [ia Eia]. destruct (In_key_alookup _ _ Hbi) as [ib Eib].
+  unfold sampling_step. rewrite Era, Eoa, Eob, Eia, Eib.
+  replace (Nat.eqb a b) with false by (symmetry; now apply Nat.eqb_neq).
+  eexists. eexists. eexists. split; [reflexivity|]. split.
+  - rewrite Qred_correct. unfold ES. fold a b.
+    assert (E1 : ((if amem b ra then 2 * getw ra b else 0) == 2 * cross a b)%Q).
+    { assert (E := HW a b Hanb Hbnb Hne). unfold Wd, getrow in E. rewrite Era in E.
+      destruct (amem b ra) eqn:Em; [now rewrite E|].
+      rewrite (getw_notin ra b (amem_false_notin _ _ Em)) in E. rewrite <- E. ring. }
+    rewrite E1, qsum_sumq. apply Qplus_comp; [reflexivity|]. apply sumq_ext. intros x Hx.
+    apply filter_In in Hx. destruct Hx as [Hx Hxn]. apply Nat.ltb_lt in Hxn.
+    assert (Hxl : In x (akeys (ag_nb g))) by (destruct Hx as [<-|[<-|[]]]; assumption).
+    assert (E := HWs x Hxl Hxn). unfold Wd in E.
+    destruct (amem x (getrow (ag_nb g) x)) eqn:Em; [exact E|].
+    rewrite (getw_notin _ x (amem_false_notin _ _ Em)) in E. exact E.
+  - rewrite Qred_correct. unfold CW. fold a b.
+    assert (E1 := Hout a Hao). assert (E2 := Hout b Hbo). assert (E3 := Hinw a Hai). assert (E4 := Hinw b Hbi).
+    unfold getw in E1, E2, E3, E4. rewrite Eoa in E1. rewrite Eob in E2. rewrite Eia in E3. rewrite Eib in E4.
+    now rewrite E1, E2, E3, E4.
+Qed.
+
+Lemma sampling_loop_spec : forall rows done g, D = done ++ rows -> ainv (length done) g ->
+  exists xs, sampling_loop n rows g = Ok xs /\
+             (sumq (map (fun x : Q * Q * Q => fst (fst x) * snd x) xs) == sumq (map (fun r => ES r * CW r) rows))%Q.
+Proof.
+  induction rows as [|r rows IH]; intros done g HD Hinv.
+  - exists []. split; reflexivity.
+  - assert (Hr : nth_error D (length done) = Some r) by (rewrite HD; apply nth_error_app_length).
+    destruct (sampling_step_spec _ r g Hr Hinv) as (es & ns & cw & Hs & Ees & Ecw).
+    destruct (ainv_step degree n G D Hv _ r g Hr Hinv) as [g' [Hm Hinv']].
+    destruct (IH (done ++ [r]) g') as [xs [Hl Hsum]].
+    + now rewrite <- app_assoc.
+    + rewrite app_length. simpl. now rewrite Nat.add_1_r.
+    + exists ((es, ns, cw) :: xs). split.
+      * simpl. rewrite Hs, Hm, Hl. reflexivity.
+      * cbn [map]. rewrite !sumq_cons. cbn [fst snd]. now rewrite Ees, Ecw, Hsum.
+Qed.
+
+Lemma dasgupta_cost_sum normalized : length G <> 0 -> 2 <= n ->
+  exists c, dasgupta_cost degree n G D normalized = Ok c /\
+    (c == (if normalized then 1 else if degree then total_weight G else inject_Z (Z.of_nat n)) *
+          sumq (map (fun r => ES r * CW r) D))%Q.
+Proof.
+  intros HG Hn. destruct (valid_rows n D Hv) as [Hlen _].
+  unfold dasgupta_cost, get_sampling_distributions.
+  replace (Nat.eqb (length G) 0) with false by (symmetry; now apply Nat.eqb_neq).
+  replace (Nat.ltb n 2) with false by (symmetry; apply Nat.ltb_ge; lia).
+  replace (Nat.ltb (length D) (n - 1)) with false by (symmetry; apply Nat.ltb_ge; lia).
+  replace (n - 1) with (length D) by lia. rewrite firstn_all.
+  destruct (sampling_loop_spec D [] (ag_init degree n G) eq_refl (ainv_init degree n G D)) as [xs [Hl Hsum]].
+  rewrite Hl. eexists. split; [reflexivity|].
+  destruct normalized; [|destruct degree]; rewrite ?Qred_correct, qsum_sumq, Hsum; ring.
+Qed.
+End Sampling.
+
+(** * The partition of the leaves into live subtrees, step by step *)
+Section Tree.
+Context (n : nat) (D : dendrogram) (Hv : valid n D = true).
+
+Definition getc (x : nat) (st : cstate) : list nat := match alookup x st with Some c => c | None => [] end.
+
+Fixpoint part (s : nat) : cstate :=
+  match s with
+  | O => init_clusters n
+  | S s' =>
+      let st := part s' in
+      match nth_error D s' with
+      | Some r => aremove (r_right r) (aremove (r_left r) st) ++ [(n + s', getc (r_left r) st ++ getc (r_right r) st)]
+      | None => st
+      end
+  end.
+
+Definition pinv (s : nat) (st : cstate) : Prop :=
+  linvp n (firstn s D) st /\
+  (forall k c, In (k, c) st -> c = leaves n D k) /\
+  Permutation (concat (map snd st)) (seq 0 n) /\
+  length st + s = n.
+
+Lemma pinv_part : forall s, s <= length D -> pinv s (part s).
+Proof.
+  assert (Hids := valid_ids_lt n D Hv). destruct (valid_rows n D Hv) as [Hlen Hrows].
+  induction s as [|s IH]; intros Hs.
+  - simpl. split; [|split; [|split]].
+    + apply linvp_of_keys_gen. unfold init_clusters, akeys. rewrite map_map. simpl. apply map_id.
+    + intros k c H. unfold init_clusters in H. apply in_map_iff in H. destruct H as [i [E Hi]]. inversion E; subst.
+      apply in_seq in Hi. symmetry. apply leaves_leaf. lia.
+    + destruct (cinv_init n D) as (_ & _ & H). exact H.
+    + unfold init_clusters. rewrite map_length, seq_length. lia.
+  - assert (Hs' : s < length D) by lia. destruct (IH ltac:(lia)) as (L & Hcl & Hperm & Hl).
+    apply nth_error_Some in Hs'. simpl. destruct (nth_error D s) as [r|] eqn:Er; [|congruence].
+    destruct (Hrows s r Er) as (Hne & Hil & Hjl & Hiu & Hju).
+    assert (Hfl : length (firstn s D) = s) by (rewrite firstn_length; lia).
+    assert (L' := L). destruct L' as (Hnd & Hk & Hch).
+    assert (Hik : In (r_left r) (akeys (part s))) by (apply Hk; rewrite Hfl; tauto).
+    assert (Hjk : In (r_right r) (akeys (part s))) by (apply Hk; rewrite Hfl; tauto).
+    destruct (In_key_alookup _ _ Hik) as [ci Hi]. destruct (In_key_alookup _ _ Hjk) as [cj Hj].
+    unfold getc. rewrite Hi, Hj.
+    assert (Hj2 : alookup (r_right r) (aremove (r_left r) (part s)) = Some cj) by (rewrite alookup_aremove_neq by auto; exact Hj).
+    unfold pinv. rewrite (firstn_S_nth D s r Er).
+    split; [|split; [|split]].
+    + replace (n + s) with (n + length (firstn s D)) by (now rewrite Hfl). now apply linvp_step.
+    + intros k c H. apply in_app_iff in H. destruct H as [H|[H|[]]].
+      * apply Hcl. now apply aremove_In, aremove_In in H.
+      * inversion H; subst k c. rewrite (leaves_node n D s r Hids Er).
+        now rewrite (Hcl _ _ (alookup_In _ _ _ Hi)), (Hcl _ _ (alookup_In _ _ _ Hj)).
+    + rewrite map_app, concat_app. simpl. rewrite app_nil_r. rewrite <- Hperm.
+      assert (P1 := aremove_perm _ _ _ Hi). assert (P2 := aremove_perm _ _ _ Hj2).
+      apply (Permutation_map snd), Permutation_concat in P1.
+      apply (Permutation_map snd), Permutation_concat in P2. simpl in P1, P2.
+      rewrite P1, P2. rewrite Permutation_app_comm. now rewrite app_assoc.
+    + rewrite app_length. simpl. apply aremove_length in Hi. apply aremove_length in Hj2. lia.
+Qed.
+
+Definition live (s x : nat) : Prop := In x (akeys (part s)).
+
+Lemma live_iff s x : s <= length D -> (live s x <-> x < n + s /\ ~ In x (flat_map children (firstn s D))).
+Proof.
+  intros Hs. destruct (pinv_part s Hs) as ((_ & Hk & _) & _). unfold live. rewrite Hk.
+  now rewrite firstn_length, Nat.min_l by lia.
+Qed.
+
+Lemma live_entry s x : s <= length D -> live s x -> In (x, leaves n D x) (part s).
+Proof.
+  intros Hs Hx. destruct (pinv_part s Hs) as (_ & Hcl & _). unfold live, akeys in Hx.
+  apply in_map_iff in Hx. destruct Hx as [[k c] [E Hin]]. simpl in E. subst k. now rewrite <- (Hcl x c Hin).
+Qed.
+
+Lemma live_cover s u : s <= length D -> u < n -> exists x, live s x /\ In u (leaves n D x).
+Proof.
+  intros Hs Hu. destruct (pinv_part s Hs) as (_ & Hcl & Hperm & _).
+  assert (Hin : In u (concat (map snd (part s)))) by (apply (Permutation_in _ (Permutation_sym Hperm)), in_seq; lia).
+  apply in_concat in Hin. destruct Hin as [c [Hc Huc]]. apply in_map_iff in Hc. destruct Hc as [[k c'] [E Hin]].
+  simpl in E. subst c'. exists k. split; [unfold live, akeys; apply in_map_iff; now exists (k, c)|].
+  now rewrite <- (Hcl k c Hin).
+Qed.
+
+Lemma live_disjoint s x y u : s <= length D -> live s x -> live s y ->
+  In u (leaves n D x) -> In u (leaves n D y) -> x = y.
+Proof.
+  intros Hs Hx Hy Hux Huy. destruct (pinv_part s Hs) as ((Hnd & _) & _ & Hperm & _).
+  assert (Hndc : NoDup (concat (map snd (part s)))) by exact (Permutation_NoDup (Permutation_sym Hperm) (seq_NoDup n 0)).
+  apply (live_entry s x Hs) in Hx. apply (live_entry s y Hs) in Hy.
+  destruct (In_nth _ _ (0, []) Hx) as [lx [Hlx Ex]]. destruct (In_nth _ _ (0, []) Hy) as [ly [Hly Ey]].
+  assert (E1 : label_of (map snd (part s)) 0 u 0 = 0 + lx).
+  { apply (label_of_spec _ Hndc); [now rewrite map_length|]. change (@nil nat) with (snd (0, @nil nat)).
+    rewrite map_nth, Ex. exact Hux. }
+  assert (E2 : label_of (map snd (part s)) 0 u 0 = 0 + ly).
+  { apply (label_of_spec _ Hndc); [now rewrite map_length|]. change (@nil nat) with (snd (0, @nil nat)).
+    rewrite map_nth, Ey. exact Huy. }
+  assert (lx = ly) by lia. subst ly. rewrite Ex in Ey. now inversion Ey.
+Qed.
+
+Lemma live_leaves s x : s <= length D -> live s x -> NoDup (leaves n D x) /\ forall u, In u (leaves n D x) -> u < n.
+Proof.
+  intros Hs Hx. destruct (pinv_part s Hs) as (_ & _ & Hperm & _).
+  assert (Hndc : NoDup (concat (map snd (part s)))) by exact (Permutation_NoDup (Permutation_sym Hperm) (seq_NoDup n 0)).
+  apply (live_entry s x Hs) in Hx.
+  assert (Hin : In (leaves n D x) (map snd (part s))) by (apply in_map_iff; now exists (x, leaves n D x)).
+  split; [exact (NoDup_concat_In _ _ Hndc Hin)|].
+  intros u Hu. assert (H : In u (concat (map snd (part s)))) by (apply in_concat; now exists (leaves n D x)).
+  apply (Permutation_in _ Hperm), in_seq in H. lia.
+Qed.
+
+(** liveness across one merge *)
+Lemma live_S s r x : nth_error D s = Some r ->
+  (live (S s) x <-> (live s x /\ x <> r_left r /\ x <> r_right r) \/ x = n + s).
+Proof.
+  intros Hr. assert (Hs : s < length D) by (apply nth_error_Some; congruence).
+  destruct (valid_rows n D Hv) as [_ Hrows]. destruct (Hrows s r Hr) as (Hne & Hil & Hjl & Hiu & Hju).
+  rewrite !live_iff by lia. rewrite (firstn_S_nth D s r Hr), flat_map_app, in_app_iff. simpl. split.
+  - intros [H1 H2]. destruct (Nat.eq_dec x (n + s)) as [->|Hx]; [now right|]. left.
+    split; [split; [lia|tauto]|]. split; intros ->; apply H2; right; tauto.
+  - intros [((H1 & H2) & H3 & H4)| ->].
+    + split; [lia|]. intros [H|[H|[H|[]]]]; [tauto|congruence|congruence].
+    + split; [lia|]. intros [H|[H|[H|[]]]]; [|lia|lia].
+      destruct (pinv_part s ltac:(lia)) as ((_ & _ & Hch) & _). apply Hch in H.
+      rewrite firstn_length, Nat.min_l in H by lia. lia.
+Qed.
+
+Lemma live_children s r : nth_error D s = Some r -> live s (r_left r) /\ live s (r_right r).
+Proof.
+  intros Hr. assert (Hs : s < length D) by (apply nth_error_Some; congruence).
+  destruct (valid_rows n D Hv) as [_ Hrows]. destruct (Hrows s r Hr) as (Hne & Hil & Hjl & Hiu & Hju).
+  rewrite !live_iff by lia. tauto.
+Qed.
+
+(** u and v lie in one live subtree at step s *)
+Definition tog (s u v : nat) : Prop := exists x, live s x /\ In u (leaves n D x) /\ In v (leaves n D x).
+
+Definition sep (r : drow) (u v : nat) : Prop :=
+  (In u (leaves n D (r_left r)) /\ In v (leaves n D (r_right r))) \/
+  (In u (leaves n D (r_right r)) /\ In v (leaves n D (r_left r))).
+
+Lemma tog_dec s u v : s <= length D -> {tog s u v} + {~ tog s u v}.
+Proof.
+  intros Hs.
+  destruct (existsb (fun kc : nat * list nat => memn u (snd kc) && memn v (snd kc)) (part s)) eqn:E.
+  - left. apply existsb_exists in E. destruct E as [[k c] [Hin H]]. simpl in H. apply andb_true_iff in H.
+    destruct H as [H1 H2]. apply memn_In in H1, H2. destruct (pinv_part s Hs) as (_ & Hcl & _).
+    exists k. rewrite <- (Hcl k c Hin). split; [|tauto]. unfold live, akeys. apply in_map_iff. now exists (k, c).
+  - right. intros (x & Hx & Hu & Hvv). apply (live_entry s x Hs) in Hx.
+    assert (H : existsb (fun kc : nat * list nat => memn u (snd kc) && memn v (snd kc)) (part s) = true).
+    { apply existsb_exists. exists (x, leaves n D x). split; [exact Hx|]. simpl. apply andb_true_iff. split; now apply memn_In. }
+    congruence.
+Qed.
+
+Lemma tog_0 u v : u <> v -> ~ tog 0 u v.
+Proof.
+  intros Hne (x & Hx & Hu & Hvv). unfold live in Hx. simpl in Hx. unfold init_clusters, akeys in Hx.
+  rewrite map_map in Hx. simpl in Hx. rewrite map_id in Hx. apply in_seq in Hx.
+  rewrite leaves_leaf in Hu, Hvv by lia. destruct Hu as [<-|[]]. destruct Hvv as [<-|[]]. congruence.
+Qed.
+
+Lemma tog_S s r u v : nth_error D s = Some r -> (tog (S s) u v <-> tog s u v \/ sep r u v).
+Proof.
+  intros Hr. assert (Hs : s < length D) by (apply nth_error_Some; congruence).
+  assert (Hids := valid_ids_lt n D Hv). assert (Hnode := leaves_node n D s r Hids Hr).
+  destruct (live_children s r Hr) as [Hli Hlj]. split.
+  - intros (x & Hx & Hu & Hvv). apply (live_S s r x Hr) in Hx. destruct Hx as [(Hx & _ & _)| ->].
+    + left. now exists x.
+    + rewrite Hnode in Hu, Hvv. apply in_app_iff in Hu, Hvv. destruct Hu as [Hu|Hu], Hvv as [Hvv|Hvv].
+      * left. now exists (r_left r).
+      * right. now left.
+      * right. now right.
+      * left. now exists (r_right r).
+  - intros [(x & Hx & Hu & Hvv)|Hsep].
+    + destruct (Nat.eq_dec x (r_left r)) as [->|Hx1].
+      { exists (n + s). split; [apply (live_S s r _ Hr); now right|]. rewrite Hnode, !in_app_iff. tauto. }
+      destruct (Nat.eq_dec x (r_right r)) as [->|Hx2].
+      { exists (n + s). split; [apply (live_S s r _ Hr); now right|]. rewrite Hnode, !in_app_iff. tauto. }
+      exists x. split; [apply (live_S s r _ Hr); left; tauto | tauto].
+    + exists (n + s). split; [apply (live_S s r _ Hr); now right|]. rewrite Hnode, !in_app_iff.
+      destruct Hsep as [[H1 H2]|[H1 H2]]; tauto.
+Qed.
+
+Lemma sep_not_tog s r u v : nth_error D s = Some r -> sep r u v -> ~ tog s u v.
+Proof.
+  intros Hr Hsep (x & Hx & Hu & Hvv). assert (Hs : s < length D) by (apply nth_error_Some; congruence).
+  destruct (live_children s r Hr) as [Hli Hlj].
+  destruct (valid_rows n D Hv) as [_ Hrows]. destruct (Hrows s r Hr) as (Hne & _).
+  destruct Hsep as [[H1 H2]|[H1 H2]].
+  - assert (x = r_left r) by (apply (live_disjoint s x (r_left r) u); [lia|assumption|assumption|assumption|assumption]).
+    assert (x = r_right r) by (apply (live_disjoint s x (r_right r) v); [lia|assumption|assumption|assumption|assumption]). congruence.
+  - assert (x = r_right r) by (apply (live_disjoint s x (r_right r) u); [lia|assumption|assumption|assumption|assumption]).
+    assert (x = r_left r) by (apply (live_disjoint s x (r_left r) v); [lia|assumption|assumption|assumption|assumption]). congruence.
+Qed.
+
+Lemma tog_mono s s' u v : s <= s' -> s' <= length D -> tog s u v -> tog s' u v.
+Proof.
+  intros Hle Hs' H. induction Hle as [|m Hle IH]; [exact H|].
+  assert (Hm : m < length D) by lia. apply nth_error_Some in Hm.
+  destruct (nth_error D m) as [r|] eqn:Er; [|congruence].
+  apply (tog_S m r u v Er). left. apply IH. lia.
+Qed.
+
+Lemma tog_final u v : u < n -> v < n -> tog (length D) u v.
+Proof.
+  intros Hu Hvv. destruct (pinv_part (length D) (Nat.le_refl _)) as (_ & Hcl & Hperm & Hl).
+  destruct (valid_rows n D Hv) as [Hlen _].
+  destruct (part (length D)) as [|[k c] [|p rest]] eqn:E; simpl in Hl; try lia.
+  simpl in Hperm. rewrite app_nil_r in Hperm.
+  exists k. split; [unfold live; rewrite E; now left|]. rewrite <- (Hcl k c (or_introl eq_refl)).
+  split; apply (Permutation_in _ (Permutation_sym Hperm)), in_seq; lia.
+Qed.
+
+(** The merge at which two distinct leaves meet: it exists, it is unique, and every cluster of the tree
+    containing both contains the cluster created there. *)
+Lemma meeting_merge u v : u < n -> v < n -> u <> v ->
+  exists t r, nth_error D t = Some r /\ sep r u v /\
+    (forall t' r', nth_error D t' = Some r' -> sep r' u v -> t' = t) /\
+    (forall t', t' < length D -> In u (leaves n D (n + t')) -> In v (leaves n D (n + t')) ->
+                incl (leaves n D (n + t)) (leaves n D (n + t'))).
+Proof.
+  intros Hu Hvv Hne.
+  assert (Hex : forall m, m <= length D -> tog m u v -> exists t, t < m /\ ~ tog t u v /\ tog (S t) u v).
+  { induction m as [|m IH]; intros Hm Htog; [exfalso; exact (tog_0 u v Hne Htog)|].
+    destruct (tog_dec m u v ltac:(lia)) as [Hy|Hn].
+    - destruct (IH ltac:(lia) Hy) as [t [Ht H]]. exists t. split; [lia|exact H].
+    - exists m. split; [lia|]. split; assumption. }
+  destruct (Hex (length D) (Nat.le_refl _) (tog_final u v Hu Hvv)) as (t & Ht & Hnt & Hst).
+  assert (Ht' := Ht). apply nth_error_Some in Ht'. destruct (nth_error D t) as [r|] eqn:Er; [|congruence].
+  exists t, r. split; [exact Er|].
+  assert (Hsep : sep r u v) by (apply (tog_S t r u v Er) in Hst; tauto).
+  split; [exact Hsep|]. split.
+  - intros t' r' Er' Hsep'. assert (Hlt' : t' < length D) by (apply nth_error_Some; congruence).
+    assert (Hn' := sep_not_tog t' r' u v Er' Hsep').
+    assert (Hs' : tog (S t') u v) by (apply (tog_S t' r' u v Er'); now right).
+    destruct (Nat.lt_trichotomy t' t) as [H|[H|H]]; [|exact H|]; exfalso.
+    + apply Hnt. apply (tog_mono (S t') t); [lia | lia | exact Hs'].
+    + apply Hn'. apply (tog_mono (S t) t'); [lia | lia | exact Hst].
+  - intros t' Hlt' Hut Hvt.
+    assert (Hlive' : live (S t') (n + t')).
+    { apply nth_error_Some in Hlt'. destruct (nth_error D t') as [r'|] eqn:Er'; [|congruence].
+      apply (live_S t' r' _ Er'). now right. }
+    assert (Hge : t <= t').
+    { destruct (Nat.le_gt_cases t t') as [H|H]; [exact H|]. exfalso. apply Hnt.
+      apply (tog_mono (S t') t); [lia | lia |]. now exists (n + t'). }
+    (* the cluster n + t keeps growing: at step S t' it lies inside a live subtree, which must be n + t' *)
+    assert (Hgrow : forall m, S t <= m -> m <= length D -> exists y, live m y /\ incl (leaves n D (n + t)) (leaves n D y)).
+    { intros m Hm1 Hm2. induction Hm1 as [|m Hm1 IH].
+      - exists (n + t). split; [apply (live_S t r _ Er); now right | apply incl_refl].
+      - destruct (IH ltac:(lia)) as (y & Hy & Hincl).
+        assert (Hm : m < length D) by lia. apply nth_error_Some in Hm.
+        destruct (nth_error D m) as [rm|] eqn:Erm; [|congruence].
+        assert (Hnode := leaves_node n D m rm (valid_ids_lt n D Hv) Erm).
+        destruct (Nat.eq_dec y (r_left rm)) as [->|Hy1].
+        { exists (n + m). split; [apply (live_S m rm _ Erm); now right|]. rewrite Hnode. now apply incl_appl. }
+        destruct (Nat.eq_dec y (r_right rm)) as [->|Hy2].
+        { exists (n + m). split; [apply (live_S m rm _ Erm); now right|]. rewrite Hnode. now apply incl_appr. }
+        exists y. split; [apply (live_S m rm _ Erm); left; tauto | exact Hincl]. }
+    destruct (Hgrow (S t') ltac:(lia) ltac:(lia)) as (y & Hy & Hincl).
+    assert (Hu_t : In u (leaves n D (n + t))).
+    { rewrite (leaves_node n D t r (valid_ids_lt n D Hv) Er), in_app_iff. destruct Hsep as [[H _]|[H _]]; tauto. }
+    assert (y = n + t') by (apply (live_disjoint (S t') y (n + t') u); [lia | assumption | assumption | now apply Hincl | assumption]).
+    now subst y.
+Qed.
+End Tree.
+
+(** * Indicator sums *)
+Definition ite (b : bool) (x : Q) : Q := if b then x else 0%Q.
+
+Lemma sumq_filter_ite {A} (f : A -> bool) (g : A -> Q) l :
+  (sumq (map g (filter f l)) == sumq (map (fun a => ite (f a) (g a)) l))%Q.
+Proof.
+  induction l as [|a l IH]; [reflexivity|]. cbn [filter map]. rewrite sumq_cons, <- IH. destruct (f a); cbn [map]; unfold ite at 1; rewrite ?sumq_cons; ring.
+Qed.
+
+Lemma sumq_indicator (x : nat) (c : Q) L : NoDup L ->
+  (sumq (map (fun u => ite (Nat.eqb x u) c) L) == ite (memn x L) c)%Q.
+Proof.
+  induction L as [|a L IH]; intros Hnd; [reflexivity|]. inversion Hnd as [|? ? Hn Hnd']; subst.
+  cbn [map]. rewrite sumq_cons, (IH Hnd'). unfold memn. cbn [existsb].
+  destruct (Nat.eqb x a) eqn:E.
+  - apply Nat.eqb_eq in E. subst a. fold (memn x L). replace (memn x L) with false.
+    + unfold ite. simpl. ring.
+    + symmetry. destruct (memn x L) eqn:Em; [apply memn_In in Em; tauto | reflexivity].
+  - unfold ite at 1. simpl. ring.
+Qed.
+
+Lemma adj_indicator G u v :
+  (adj G u v == sumq (map (fun e => ite (Nat.eqb (e_src e) u && Nat.eqb (e_dst e) v) (e_w e)) G))%Q.
+Proof. unfold adj. rewrite qsum_sumq. apply sumq_filter_ite. Qed.
+
+Lemma ite_and a b x : ite (a && b) x = ite a (ite b x).
+Proof. now destruct a, b. Qed.
+
+(** Sum of the entries between two duplicate-free node lists = total weight of the edges going from one to the other. *)
+Lemma block_sum G L1 L2 : NoDup L1 -> NoDup L2 ->
+  (sumq (map (fun u => sumq (map (fun v => adj G u v) L2)) L1) ==
+   sumq (map (fun e => ite (memn (e_src e) L1 && memn (e_dst e) L2) (e_w e)) G))%Q.
+Proof.
+  intros H1 H2.
+  rewrite (sumq_ext _ (fun u => sumq (map (fun e => ite (Nat.eqb (e_src e) u) (ite (memn (e_dst e) L2) (e_w e))) G))).
+  - rewrite sumq_swap. apply sumq_ext. intros e _. rewrite sumq_indicator by assumption. now rewrite ite_and.
+  - intros u _.
+    rewrite (sumq_ext _ (fun v => sumq (map (fun e => ite (Nat.eqb (e_src e) u) (ite (Nat.eqb (e_dst e) v) (e_w e))) G))).
+    + rewrite sumq_swap. apply sumq_ext. intros e _.
+      destruct (Nat.eqb (e_src e) u); cbn [ite]; [apply sumq_indicator; assumption | apply sumq_zero; intros; reflexivity].
+    + intros v _. rewrite adj_indicator. apply sumq_ext. intros e _. now rewrite ite_and.
+Qed.
+
+Lemma sumq_single {A} (f : A -> Q) (l : list A) t0 a0 :
+  nth_error l t0 = Some a0 ->
+  (forall t a, nth_error l t = Some a -> t <> t0 -> (f a == 0)%Q) ->
+  (sumq (map f l) == f a0)%Q.
+Proof.
+  revert t0. induction l as [|a l IH]; intros t0 H0 Hz; [destruct t0; discriminate|].
+  cbn [map]. rewrite sumq_cons. destruct t0 as [|t0]; simpl in H0.
+  - inversion H0; subst a0. rewrite sumq_zero; [ring|]. intros x Hx. destruct (In_nth_error _ _ Hx) as [t Ht].
+    apply (Hz (S t) x); [exact Ht | discriminate].
+  - rewrite (Hz 0 a eq_refl) by discriminate. rewrite (IH t0 H0); [ring|].
+    intros t x Ht Hne. apply (Hz (S t) x Ht). congruence.
+Qed.
+
+Lemma sumq_const {A} (c : Q) (L : list A) : (sumq (map (fun _ => c) L) == inject_Z (Z.of_nat (length L)) * c)%Q.
+Proof.
+  induction L as [|a L IH]; [simpl; ring|]. cbn [map length]. rewrite sumq_cons, IH, Nat2Z.inj_succ.
+  unfold Z.succ. rewrite inject_Z_plus. ring.
+Qed.
+
+Lemma sumq2_scale {A B} (f : A -> B -> Q) c L1 L2 :
+  (sumq (map (fun u => sumq (map (fun v => c * f u v) L2)) L1) == c * sumq (map (fun u => sumq (map (f u) L2)) L1))%Q.
+Proof. rewrite <- sumq_scale. apply sumq_ext. intros u _. apply sumq_scale. Qed.
+
+Lemma sumq2_plus {A B} (f g : A -> B -> Q) L1 L2 :
+  (sumq (map (fun u => sumq (map (fun v => f u v + g u v) L2)) L1) ==
+   sumq (map (fun u => sumq (map (f u) L2)) L1) + sumq (map (fun u => sumq (map (g u) L2)) L1))%Q.
+Proof. rewrite <- sumq_plus. apply sumq_ext. intros u _. apply sumq_plus. Qed.
+
+Lemma nthq_map_seq (f : nat -> Q) n u : u < n -> nthq (map f (seq 0 n)) u = f u.
+Proof. intros H. unfold nthq. now apply nth_map_seq. Qed.
+
+(** The candidate of minimal length found by the fold of [smallest_common]. *)
+Lemma fold_min (cands : list (list nat)) :
+  (forall c, In c cands -> c <> []) -> cands <> [] ->
+  let res := fold_right (fun c best => match best with [] => c | _ => if Nat.leb (length c) (length best) then c else best end) [] cands in
+  In res cands /\ forall c, In c cands -> length res <= length c.
+Proof.
+  induction cands as [|c cands IH]; intros Hne Hnn; [congruence|]. cbn zeta. cbn [fold_right].
+  destruct cands as [|c2 cands'].
+  - simpl. split; [now left|]. intros c' [<-|[]]. lia.
+  - set (rest := c2 :: cands') in *.
+    destruct (IH (fun x Hx => Hne x (or_intror Hx)) ltac:(discriminate)) as [Hin Hmin]. cbn zeta in Hin, Hmin.
+    set (best := fold_right (fun c best => match best with [] => c | _ => if Nat.leb (length c) (length best) then c else best end) [] rest) in *.
+    assert (Hb : best <> []) by (apply Hne; now right).
+    destruct best as [|b0 bs] eqn:Eb; [congruence|]. rewrite <- Eb in *.
+    destruct (Nat.leb (length c) (length best)) eqn:El.
+    + apply Nat.leb_le in El. split; [now left|]. intros c' [<-|Hc']; [lia|]. specialize (Hmin c' Hc'). lia.
+    + apply Nat.leb_gt in El. split; [now right|]. intros c' [<-|Hc']; [lia|]. now apply Hmin.
+Qed.
+
+Lemma probs_row_nth (degree : bool) n G u : u < n ->
+  (nthq (probs_row degree n G) u == if degree then out_weight G u / total_weight G else 1 / inject_Z (Z.of_nat n))%Q.
+Proof. intros H. unfold probs_row. rewrite nthq_map_seq by assumption. apply Qred_correct. Qed.
+Lemma probs_col_nth (degree : bool) n G u : u < n ->
+  (nthq (probs_col degree n G) u == if degree then in_weight G u / total_weight G else 1 / inject_Z (Z.of_nat n))%Q.
+Proof. intros H. unfold probs_col. rewrite nthq_map_seq by assumption. apply Qred_correct. Qed.
+
+Lemma nQ_pos n : 2 <= n -> (0 < inject_Z (Z.of_nat n))%Q.
+Proof. intros Hn. change 0%Q with (inject_Z 0). rewrite <- Zlt_Qlt. lia. Qed.
+
+Lemma PR_PC_measure (degree : bool) n G l : (0 < total_weight G)%Q -> 2 <= n -> (forall u, In u l -> u < n) ->
+  ((if degree then total_weight G else inject_Z (Z.of_nat n)) * ((PR degree n G l + PC degree n G l) / 2) ==
+   cluster_measure degree G l)%Q.
+Proof.
+  intros Hw Hn Hb. unfold PR, PC, cluster_measure. assert (Hnq := nQ_pos n Hn).
+  destruct degree.
+  - assert (E1 : (sumq (map (nthq (probs_row true n G)) l) == / total_weight G * sumq (map (out_weight G) l))%Q).
+    { rewrite <- sumq_scale. apply sumq_ext. intros u Hu. rewrite probs_row_nth by (now apply Hb). unfold Qdiv. ring. }
+    assert (E2 : (sumq (map (nthq (probs_col true n G)) l) == / total_weight G * sumq (map (in_weight G) l))%Q).
+    { rewrite <- sumq_scale. apply sumq_ext. intros u Hu. rewrite probs_col_nth by (now apply Hb). unfold Qdiv. ring. }
+    rewrite E1, E2. field. lra.
+  - assert (E1 : (sumq (map (nthq (probs_row false n G)) l) == inject_Z (Z.of_nat (length l)) * (1 / inject_Z (Z.of_nat n)))%Q).
+    { rewrite <- sumq_const. apply sumq_ext. intros u Hu. rewrite probs_row_nth by (now apply Hb). reflexivity. }
+    assert (E2 : (sumq (map (nthq (probs_col false n G)) l) == inject_Z (Z.of_nat (length l)) * (1 / inject_Z (Z.of_nat n)))%Q).
+    { rewrite <- sumq_const. apply sumq_ext. intros u Hu. rewrite probs_col_nth by (now apply Hb). reflexivity. }
+    rewrite E1, E2. field. lra.
+Qed.
+
+
+Section Final.
+Context (degree : bool) (n : nat) (G : wgraph) (D : dendrogram) (Hv : valid n D = true).
+Context (HG : forall e, In e G -> e_src e < n /\ e_dst e < n /\ e_src e <> e_dst e).
+Context (Hw : (0 < total_weight G)%Q) (Hn : 2 <= n).
+
+Notation L := (leaves n D).
+Definition sepb (r : drow) (e : nat * nat * Q) : bool :=
+  (memn (e_src e) (L (r_left r)) && memn (e_dst e) (L (r_right r))) ||
+  (memn (e_src e) (L (r_right r)) && memn (e_dst e) (L (r_left r))).
+Definition XW (r : drow) : Q := sumq (map (fun e => ite (sepb r e) (e_w e)) G).
+Definition MR (r : drow) : Q := cluster_measure degree G (L (r_left r) ++ L (r_right r)).
+
+Lemma adj_noloop x : (adj G x x == 0)%Q.
+Proof.
+  rewrite adj_indicator. apply sumq_zero. intros e He. destruct (HG e He) as (_ & _ & Hne).
+  destruct (Nat.eqb (e_src e) x) eqn:E1, (Nat.eqb (e_dst e) x) eqn:E2; try reflexivity.
+  apply Nat.eqb_eq in E1, E2. congruence.
+Qed.
+
+Lemma row_children_facts t r : nth_error D t = Some r ->
+  NoDup (L (r_left r)) /\ NoDup (L (r_right r)) /\
+  (forall u, In u (L (r_left r)) -> In u (L (r_right r)) -> False) /\
+  (forall u, In u (L (r_left r)) \/ In u (L (r_right r)) -> u < n).
+Proof.
+  intros Hr. assert (Ht : t < length D) by (apply nth_error_Some; congruence).
+  destruct (live_children n D Hv t r Hr) as [Hli Hlj].
+  destruct (live_leaves n D Hv t _ ltac:(lia) Hli) as [N1 B1]. destruct (live_leaves n D Hv t _ ltac:(lia) Hlj) as [N2 B2].
+  destruct (valid_rows n D Hv) as [_ Hrows]. destruct (Hrows t r Hr) as (Hne & _).
+  split; [exact N1|]. split; [exact N2|]. split.
+  - intros u H1 H2. apply Hne. apply (live_disjoint n D Hv t _ _ u); try assumption. lia.
+  - intros u [H|H]; [now apply B1 | now apply B2].
+Qed.
+
+Lemma ES_XW t r : nth_error D t = Some r -> (ES n G D r == XW r / total_weight G)%Q.
+Proof.
+  intros Hr. destruct (row_children_facts t r Hr) as (N1 & N2 & Hdisj & _).
+  unfold ES. rewrite (sumq_zero (fun x => sw G x x)).
+  2:{ intros x _. unfold sw. rewrite Qred_correct, adj_noloop. unfold Qdiv. ring. }
+  unfold cross.
+  rewrite (sumq_ext _ (fun u => sumq (map (fun v => (/ (2 * total_weight G)) * (adj G u v + adj G v u))%Q (L (r_right r))))).
+  2:{ intros u _. apply sumq_ext. intros v _. unfold sw. rewrite Qred_correct. unfold Qdiv. ring. }
+  rewrite sumq2_scale, sumq2_plus.
+  rewrite (block_sum G _ _ N1 N2).
+  rewrite (sumq_swap (fun u v => adj G v u)). rewrite (block_sum G _ _ N2 N1).
+  rewrite <- sumq_plus. unfold XW.
+  rewrite (sumq_ext _ (fun e => ite (sepb r e) (e_w e))).
+  - field. lra.
+  - intros e _. unfold sepb.
+    destruct (memn (e_src e) (L (r_left r)) && memn (e_dst e) (L (r_right r))) eqn:E1;
+    destruct (memn (e_src e) (L (r_right r)) && memn (e_dst e) (L (r_left r))) eqn:E2; cbn [ite orb]; try ring.
+    exfalso. apply andb_true_iff in E1, E2. destruct E1 as [E1 _], E2 as [E2 _]. apply memn_In in E1, E2. eauto.
+Qed.
+
+Lemma CW_MR t r : nth_error D t = Some r ->
+  ((if degree then total_weight G else inject_Z (Z.of_nat n)) * CW degree n G D r == MR r)%Q.
+Proof.
+  intros Hr. destruct (row_children_facts t r Hr) as (_ & _ & _ & Hb).
+  unfold MR. rewrite <- (PR_PC_measure degree n G _ Hw Hn) by (intros u Hu; apply Hb; now apply in_app_iff).
+  unfold CW, PR, PC. rewrite !map_app, !sumq_app. field.
+Qed.
+
+Lemma cluster_measure_perm l l' : Permutation l l' -> (cluster_measure degree G l == cluster_measure degree G l')%Q.
+Proof.
+  intros P. unfold cluster_measure. destruct degree.
+  - rewrite (sumq_perm _ _ (Permutation_map (out_weight G) P)), (sumq_perm _ _ (Permutation_map (in_weight G) P)). reflexivity.
+  - now rewrite (Permutation_length P).
+Qed.
+
+Lemma sepb_sep r e : sepb r e = true <-> sep n D r (e_src e) (e_dst e).
+Proof.
+  unfold sepb, sep. rewrite orb_true_iff, !andb_true_iff, !memn_In. tauto.
+Qed.
+
+Lemma smallest_common_measure e t r : In e G -> nth_error D t = Some r -> sepb r e = true ->
+  (forall t', t' < length D -> In (e_src e) (L (n + t')) -> In (e_dst e) (L (n + t')) -> incl (L (n + t)) (L (n + t'))) ->
+  (cluster_measure degree G (smallest_common n D (e_src e) (e_dst e)) == MR r)%Q.
+Proof.
+  intros He Hr Hs Hincl. assert (Ht : t < length D) by (apply nth_error_Some; congruence).
+  assert (Hids := valid_ids_lt n D Hv). assert (Hnode := leaves_node n D t r Hids Hr).
+  unfold MR. rewrite <- Hnode. apply cluster_measure_perm. symmetry.
+  set (u := e_src e) in *. set (v := e_dst e) in *.
+  set (cands := filter (fun c => memn u c && memn v c) (tree_clusters n D)).
+  assert (Huv : In u (L (n + t)) /\ In v (L (n + t))).
+  { apply sepb_sep in Hs. fold u v in Hs. rewrite Hnode, !in_app_iff. destruct Hs as [[H1 H2]|[H1 H2]]; tauto. }
+  assert (Hcand : In (L (n + t)) cands).
+  { apply filter_In. split.
+    - unfold tree_clusters. apply in_map_iff. exists t. split; [reflexivity | apply in_seq; lia].
+    - apply andb_true_iff. split; apply memn_In; tauto. }
+  assert (Hall : forall c, In c cands -> exists t', t' < length D /\ c = L (n + t') /\ In u c /\ In v c).
+  { intros c Hc. apply filter_In in Hc. destruct Hc as [Hc Hm]. apply andb_true_iff in Hm. destruct Hm as [H1 H2].
+    apply memn_In in H1, H2. unfold tree_clusters in Hc. apply in_map_iff in Hc. destruct Hc as [t' [<- Ht']].
+    apply in_seq in Ht'. exists t'. split; [lia|]. tauto. }
+  destruct (fold_min cands) as [Hres Hmin].
+  { intros c Hc. destruct (Hall c Hc) as (t' & _ & _ & Hu & _). intros ->. contradiction. }
+  { intros E. rewrite E in Hcand. contradiction. }
+  cbn zeta in Hres, Hmin. unfold smallest_common. fold u v cands.
+  set (res := fold_right _ [] cands) in *.
+  destruct (Hall res Hres) as (t' & Ht' & Eres & Hu & Hvv).
+  apply NoDup_Permutation_bis.
+  - assert (Hl : live n D (S t) (n + t)) by (apply (live_S n D Hv t r _ Hr); now right).
+    apply (live_leaves n D Hv (S t) _ ltac:(lia) Hl).
+  - now apply Hmin.
+  - rewrite Eres in *. now apply Hincl.
+Qed.
+
+Theorem dasgupta_cost_is_spec : G <> [] ->
+  exists c, dasgupta_cost degree n G D false = Ok c /\ (c == dasgupta_spec degree n G D)%Q.
+Proof.
+  intros HGne. assert (Hlen0 : length G <> 0) by (destruct G; [congruence | discriminate]).
+  destruct (dasgupta_cost_sum degree n G D Hv false Hlen0 Hn) as [c [Hc Ec]].
+  exists c. split; [exact Hc|]. rewrite Ec. cbn [negb]. clear c Hc Ec.
+  set (F := (if degree then total_weight G else inject_Z (Z.of_nat n))%Q).
+  (* row by row *)
+  assert (Hrow : forall t r, nth_error D t = Some r ->
+             (F * (ES n G D r * CW degree n G D r) == / total_weight G * (XW r * MR r))%Q).
+  { intros t r Hr. rewrite (ES_XW t r Hr). rewrite <- (CW_MR t r Hr). fold F. field. lra. }
+  rewrite <- sumq_scale.
+  rewrite (sumq_ext _ (fun r => / total_weight G * (XW r * MR r))%Q).
+  2:{ intros r Hr. destruct (In_nth_error _ _ Hr) as [t Ht]. exact (Hrow t r Ht). }
+  rewrite sumq_scale. unfold dasgupta_spec.
+  assert (Hmain : (sumq (map (fun r => XW r * MR r) D) ==
+                   sumq (map (fun e => e_w e * cluster_measure degree G (smallest_common n D (e_src e) (e_dst e))) G))%Q).
+  { rewrite (sumq_ext _ (fun r => sumq (map (fun e => e_w e * ite (sepb r e) (MR r))%Q G))).
+    2:{ intros r _. unfold XW. rewrite Qmult_comm, <- sumq_scale. apply sumq_ext. intros e _.
+        destruct (sepb r e); cbn [ite]; ring. }
+    rewrite sumq_swap. apply sumq_ext. intros e He. rewrite sumq_scale. apply Qmult_comp; [reflexivity|].
+    destruct (HG e He) as (Hu & Hvv & Hne).
+    destruct (meeting_merge n D Hv _ _ Hu Hvv Hne) as (t & r & Hr & Hsep & Huniq & Hincl).
+    rewrite (sumq_single _ D t r Hr).
+    - assert (Hs : sepb r e = true) by now apply sepb_sep. rewrite Hs. cbn [ite]. symmetry.
+      exact (smallest_common_measure e t r He Hr Hs Hincl).
+    - intros t' r' Hr' Hne'. destruct (sepb r' e) eqn:Es; [|reflexivity]. exfalso. apply Hne'.
+      apply (Huniq t' r' Hr'). now apply sepb_sep. }
+  rewrite Hmain. field. lra.
+Qed.
+End Final.
+
+Lemma sumq_sub (f : nat -> Q) l l' : (forall x, (0 <= f x)%Q) -> NoDup l -> incl l l' ->
+  (sumq (map f l) <= sumq (map f l'))%Q.
+Proof.
+  intros Hf. revert l'. induction l as [|a l IH]; intros l' Hnd Hincl.
+  - cbn [map]. rewrite sumq_nil. apply sumq_nonneg. intros x Hx. apply in_map_iff in Hx. destruct Hx as [y [<- _]]. apply Hf.
+  - inversion Hnd as [|? ? Hn Hnd']; subst.
+    assert (Ha : In a l') by (apply Hincl; now left). apply in_split in Ha. destruct Ha as (l1 & l2 & ->).
+    assert (Hincl' : incl l (l1 ++ l2)).
+    { intros x Hx. assert (H := Hincl x (or_intror Hx)). apply in_app_iff in H. apply in_app_iff.
+      destruct H as [H|[H|H]]; [now left | subst; tauto | now right]. }
+    specialize (IH (l1 ++ l2) Hnd' Hincl'). cbn [map]. rewrite sumq_cons.
+    rewrite map_app in *. cbn [map]. rewrite sumq_app in *. rewrite sumq_cons. lra.
+Qed.
+
+Lemma NoDup_app_intro_aux {A} (l1 l2 : list A) :
+  NoDup l1 -> NoDup l2 -> (forall x, In x l1 -> In x l2 -> False) -> NoDup (l1 ++ l2).
+Proof.
+  induction l1 as [|a l1 IH]; intros H1 H2 Hd; [exact H2|]. inversion H1 as [|? ? Hn H1']; subst.
+  simpl. constructor.
+  - intros Hc. apply in_app_iff in Hc. destruct Hc as [Hc|Hc]; [tauto|]. apply (Hd a); [now left | exact Hc].
+  - apply IH; [assumption | assumption |]. intros x Hx. apply Hd. now right.
+Qed.
+
+Section Score.
+Context (degree : bool) (n : nat) (G : wgraph) (D : dendrogram) (Hv : valid n D = true).
+Context (HG : forall e, In e G -> e_src e < n /\ e_dst e < n /\ e_src e <> e_dst e).
+Context (Hpos : forall e, In e G -> (0 <= e_w e)%Q).
+Context (Hw : (0 < total_weight G)%Q) (Hn : 2 <= n).
+
+Lemma out_weight_ind u : (out_weight G u == sumq (map (fun e => ite (Nat.eqb (e_src e) u) (e_w e)) G))%Q.
+Proof. unfold out_weight. rewrite qsum_sumq. apply sumq_filter_ite. Qed.
+Lemma in_weight_ind u : (in_weight G u == sumq (map (fun e => ite (Nat.eqb (e_dst e) u) (e_w e)) G))%Q.
+Proof. unfold in_weight. rewrite qsum_sumq. apply sumq_filter_ite. Qed.
+
+Lemma ite_nonneg b x : (0 <= x)%Q -> (0 <= ite b x)%Q.
+Proof. destruct b; simpl; [auto | intros; apply Qle_refl]. Qed.
+
+Lemma out_weight_nonneg u : (0 <= out_weight G u)%Q.
+Proof.
+  rewrite out_weight_ind. apply sumq_nonneg. intros x Hx. apply in_map_iff in Hx. destruct Hx as [e [<- He]].
+  apply ite_nonneg. now apply Hpos.
+Qed.
+Lemma in_weight_nonneg u : (0 <= in_weight G u)%Q.
+Proof.
+  rewrite in_weight_ind. apply sumq_nonneg. intros x Hx. apply in_map_iff in Hx. destruct Hx as [e [<- He]].
+  apply ite_nonneg. now apply Hpos.
+Qed.
+
+Lemma out_weight_total : (sumq (map (out_weight G) (seq 0 n)) == total_weight G)%Q.
+Proof.
+  rewrite (sumq_ext _ (fun u => sumq (map (fun e => ite (Nat.eqb (e_src e) u) (e_w e)) G))) by (intros; apply out_weight_ind).
+  rewrite sumq_swap. unfold total_weight. rewrite qsum_sumq. apply sumq_ext. intros e He.
+  rewrite sumq_indicator by apply seq_NoDup. destruct (HG e He) as (Hs & _).
+  replace (memn (e_src e) (seq 0 n)) with true by (symmetry; apply memn_In, in_seq; lia). reflexivity.
+Qed.
+Lemma in_weight_total : (sumq (map (in_weight G) (seq 0 n)) == total_weight G)%Q.
+Proof.
+  rewrite (sumq_ext _ (fun u => sumq (map (fun e => ite (Nat.eqb (e_dst e) u) (e_w e)) G))) by (intros; apply in_weight_ind).
+  rewrite sumq_swap. unfold total_weight. rewrite qsum_sumq. apply sumq_ext. intros e He.
+  rewrite sumq_indicator by apply seq_NoDup. destruct (HG e He) as (_ & Hs & _).
+  replace (memn (e_dst e) (seq 0 n)) with true by (symmetry; apply memn_In, in_seq; lia). reflexivity.
+Qed.
+
+(** The node sampling probabilities are non-negative and sum to 1. *)
+Lemma probs_bounds (l : list nat) : NoDup l -> (forall u, In u l -> u < n) ->
+  (0 <= PR degree n G l <= 1)%Q /\ (0 <= PC degree n G l <= 1)%Q.
+Proof.
+  intros Hnd Hb. assert (Hnq := nQ_pos n Hn).
+  assert (Hincl : incl l (seq 0 n)) by (intros u Hu; apply in_seq; specialize (Hb u Hu); lia).
+  set (fr := fun u => (if degree then out_weight G u / total_weight G else 1 / inject_Z (Z.of_nat n))%Q).
+  set (fc := fun u => (if degree then in_weight G u / total_weight G else 1 / inject_Z (Z.of_nat n))%Q).
+  assert (Hfr : forall u, (0 <= fr u)%Q).
+  { intros u. unfold fr. destruct degree.
+    - apply Qle_shift_div_l; [exact Hw|]. rewrite Qmult_0_l. apply out_weight_nonneg.
+    - apply Qle_shift_div_l; [exact Hnq|]. lra. }
+  assert (Hfc : forall u, (0 <= fc u)%Q).
+  { intros u. unfold fc. destruct degree.
+    - apply Qle_shift_div_l; [exact Hw|]. rewrite Qmult_0_l. apply in_weight_nonneg.
+    - apply Qle_shift_div_l; [exact Hnq|]. lra. }
+  assert (Er : (PR degree n G l == sumq (map fr l))%Q).
+  { unfold PR. apply sumq_ext. intros u Hu. apply probs_row_nth. now apply Hb. }
+  assert (Ec : (PC degree n G l == sumq (map fc l))%Q).
+  { unfold PC. apply sumq_ext. intros u Hu. apply probs_col_nth. now apply Hb. }
+  assert (Tr : (sumq (map fr (seq 0 n)) == 1)%Q).
+  { unfold fr. destruct degree.
+    - rewrite (sumq_ext _ (fun u => / total_weight G * out_weight G u)%Q) by (intros; unfold Qdiv; ring).
+      rewrite sumq_scale, out_weight_total. field. lra.
+    - rewrite sumq_const, seq_length. field. lra. }
+  assert (Tc : (sumq (map fc (seq 0 n)) == 1)%Q).
+  { unfold fc. destruct degree.
+    - rewrite (sumq_ext _ (fun u => / total_weight G * in_weight G u)%Q) by (intros; unfold Qdiv; ring).
+      rewrite sumq_scale, in_weight_total. field. lra.
+    - rewrite sumq_const, seq_length. field. lra. }
+  rewrite Er, Ec. split; split.
+  - apply sumq_nonneg. intros x Hx. apply in_map_iff in Hx. destruct Hx as [u [<- _]]. apply Hfr.
+  - rewrite <- Tr. now apply sumq_sub.
+  - apply sumq_nonneg. intros x Hx. apply in_map_iff in Hx. destruct Hx as [u [<- _]]. apply Hfc.
+  - rewrite <- Tc. now apply sumq_sub.
+Qed.
+
+Lemma XW_nonneg r : (0 <= XW n G D r)%Q.
+Proof.
+  unfold XW. apply sumq_nonneg. intros x Hx. apply in_map_iff in Hx. destruct Hx as [e [<- He]].
+  apply ite_nonneg. now apply Hpos.
+Qed.
+
+Lemma XW_total : (sumq (map (fun r => XW n G D r) D) == total_weight G)%Q.
+Proof.
+  unfold XW. rewrite sumq_swap. unfold total_weight. rewrite qsum_sumq. apply sumq_ext. intros e He.
+  destruct (HG e He) as (Hu & Hvv & Hne).
+  destruct (meeting_merge n D Hv _ _ Hu Hvv Hne) as (t & r & Hr & Hsep & Huniq & _).
+  rewrite (sumq_single _ D t r Hr).
+  - assert (Hs : sepb n D r e = true) by now apply sepb_sep. now rewrite Hs.
+  - intros t' r' Hr' Hne'. destruct (sepb n D r' e) eqn:Es; [|reflexivity]. exfalso. apply Hne'.
+    apply (Huniq t' r' Hr'). now apply sepb_sep.
+Qed.
+
+Theorem dasgupta_score_unit : G <> [] ->
+  exists s, dasgupta_score degree n G D = Ok s /\ (0 <= s <= 1)%Q.
+Proof.
+  intros HGne. assert (Hlen0 : length G <> 0) by (destruct G; [congruence | discriminate]).
+  destruct (dasgupta_cost_sum degree n G D Hv true Hlen0 Hn) as [c [Hc Ec]].
+  unfold dasgupta_score. rewrite Hc. eexists. split; [reflexivity|]. rewrite Qred_correct, Ec.
+  assert (Hrow : forall r, In r D -> (0 <= ES n G D r * CW degree n G D r <= XW n G D r / total_weight G)%Q).
+  { intros r Hr. destruct (In_nth_error _ _ Hr) as [t Ht].
+    rewrite (ES_XW n G D Hv HG Hw Hn t r Ht).
+    destruct (row_children_facts n D Hv Hn t r Ht) as (N1 & N2 & Hdisj & Hb).
+    assert (Hnd : NoDup (leaves n D (r_left r) ++ leaves n D (r_right r))).
+    { apply NoDup_app_intro_aux; try assumption. }
+    destruct (probs_bounds _ Hnd) as [[P1 P2] [P3 P4]]; [intros u Hu; apply Hb; now apply in_app_iff|].
+    assert (ECW : (CW degree n G D r == (PR degree n G (leaves n D (r_left r) ++ leaves n D (r_right r)) +
+                                         PC degree n G (leaves n D (r_left r) ++ leaves n D (r_right r))) / 2)%Q).
+    { unfold CW, PR, PC. rewrite !map_app, !sumq_app. field. }
+    assert (HX := XW_nonneg r).
+    assert (HXW : (0 <= XW n G D r / total_weight G)%Q) by (apply Qle_shift_div_l; [exact Hw | lra]).
+    rewrite ECW. set (x := (XW n G D r / total_weight G)%Q) in *.
+    set (p := PR degree n G (leaves n D (r_left r) ++ leaves n D (r_right r))) in *.
+    set (q := PC degree n G (leaves n D (r_left r) ++ leaves n D (r_right r))) in *.
+    set (y := ((p + q) / 2)%Q). assert (Hy : (0 <= y <= 1)%Q) by (unfold y; split; [apply Qle_shift_div_l; lra | apply Qle_shift_div_r; lra]).
+    assert (H1 : (0 <= x * y)%Q) by (apply Qmult_le_0_compat; lra).
+    assert (H2 : (0 <= x * (1 - y))%Q) by (apply Qmult_le_0_compat; lra).
+    assert (H3 : (x * (1 - y) == x - x * y)%Q) by ring. split; lra. }
+  assert (Hlo : (0 <= sumq (map (fun r => ES n G D r * CW degree n G D r) D))%Q).
+  { apply sumq_nonneg. intros x Hx. apply in_map_iff in Hx. destruct Hx as [r [<- Hr]]. apply Hrow, Hr. }
+  assert (Hhi : (sumq (map (fun r => ES n G D r * CW degree n G D r) D) <= 1)%Q).
+  { apply Qle_trans with (sumq (map (fun r => XW n G D r / total_weight G)%Q D)).
+    - apply sumq_le. intros r Hr. apply Hrow, Hr.
+    - rewrite (sumq_ext _ (fun r => / total_weight G * XW n G D r)%Q) by (intros; unfold Qdiv; ring).
+      rewrite sumq_scale, XW_total. apply Qle_lteq. right. field. lra. }
+  lra.
+Qed.
+End Score.
